@@ -59,8 +59,9 @@ package ers
 
 //@ func (*Stack).Len
 //@   props C12
-//@   requires e == nil || sinv(e)
-//@   ensures result == (e == nil ? 0 : len(e.view))
+//@   ensures e == nil ==> result == 0
+//@   ensures e != nil ==> result == e.count
+//@   ensures e != nil && sinv(e) ==> result == len(e.view)
 
 // Resolve: nil exactly when nothing was pushed; the single error itself when
 // there is one; otherwise the stack.
